@@ -680,5 +680,5 @@ func TestVerif_C04(t *testing.T) {
 	base, cleanup := vh.ScratchDir(t, "c04-")
 	defer cleanup()
 	t.Run("pinned", func(t *testing.T) { c04Pinned(t, base) })
-	vh.Check(t, "index_variants", 8, 8, func(rt *rapid.T) { c04Case(rt, rec, base) })
+	vh.Check(t, "index_variants", 8, 6, func(rt *rapid.T) { c04Case(rt, rec, base) })
 }
